@@ -113,8 +113,8 @@ PROPS['C10'] = {
 }
 PROPS['C11'] = {
     'kani': {
-        'quick': [krun(['c11::q::'], timeout=900, bounds='(N,M) in {(1,1),(2,3),(3,2),(2,2),(4,1)} + degenerate (0,3),(2,0),(0,0); owned, & and &mut; symbolic contents and (i,j)')],
-        'thorough': [krun(['c11::'], timeout=3000, bounds='(N,M) up to (6,6) plus (1,16),(16,1),(4,8)')],
+        'quick': [krun(['c11::q::', 'c03::q::seq::fl_'], timeout=900, bounds='(N,M) in {(1,1),(2,3),(3,2),(2,2),(4,1)} + degenerate (0,3),(2,0),(0,0); owned, & and &mut; symbolic contents and (i,j)')],
+        'thorough': [krun(['c11::', 'c03::q::seq::fl_', 'c03::t::seq::fl_'], timeout=3000, bounds='(N,M) up to (6,6) plus (1,16),(16,1),(4,8)')],
     },
     'functions': ['Flatten::flatten (owned, &, &mut)', 'Unflatten::unflatten (owned, &, &mut)', 'const_transmute'],
     'bounds': 'K: concrete (T,N,M); contents, (i,j) and written values symbolic.',
